@@ -425,11 +425,27 @@ func TestVerifC25(t *testing.T) {
 		bound = 3
 	}
 	r.Rule(fmt.Sprintf("every interleaving with at most %d preemptions of each 1-3 thread scenario on shared real tables; states = executions (schedules) run to completion; "+
-		"non-trivial = scenarios", bound))
-	r.Require("executions")
+		"non-trivial = scenarios; plus the leak part: session histories (reach a state x end the session in every way) followed by disposal of the peer and 300 s of virtual time, after which no goroutine created for the peer may still exist", bound))
+	r.Require("executions", "leak_histories")
 	r.Extra("preemption_bound", bound)
 	scs := append(zvC25Scenarios(), zvC25SessionScenarios()...)
 	if r.IsReplay() {
+		var lc zvC25LeakCase
+		r.ReplayCase(&lc)
+		if lc.Leak {
+			leaked, x := zvC25LeakRun(lc.Hist, true)
+			for _, l := range x.Log {
+				fmt.Println("   ", l)
+			}
+			for _, l := range leaked {
+				fmt.Println("LEAKED:", l)
+				k := l[strings.Index(l, "blocked at"):]
+				r.Violation(vh.Sig("clause", "goroutine-leak", "where", k), lc, "goroutine still %s", l)
+			}
+			r.Count("executions", 1)
+			r.Count("leak_histories", 1)
+			return
+		}
 		var c zvC25Case
 		r.ReplayCase(&c)
 		for _, sc := range scs {
@@ -443,4 +459,5 @@ func TestVerifC25(t *testing.T) {
 	for _, sc := range scs {
 		zvC25Run(r, sc, bound, nil)
 	}
+	zvC25Leaks(r)
 }
